@@ -461,7 +461,12 @@ def static_oracle(files: dict[str, str]) -> list[dict]:
                     # `from P import x` takes the attribute x of package P before it looks for a submodule:
                     # a name that P/__init__.py binds to something else wins over the submodule P/x
                     pf = by_module.get(target)
-                    if pf in trees and pf != rel and a.name in top_level_names(trees[pf]) and binding_of(trees[pf], target, a.name) != sub:
+                    if pf == rel:  # inside P/__init__.py itself: only what is bound *before* this statement counts
+                        earlier = ast.Module(body=[st for st in tree.body if st.lineno < node.lineno], type_ignores=[])
+                        shadowed = a.name in top_level_names(earlier) and binding_of(earlier, target, a.name) != sub
+                    else:
+                        shadowed = pf in trees and a.name in top_level_names(trees[pf]) and binding_of(trees[pf], target, a.name) != sub
+                    if shadowed:
                         fails.append({"check": "import_resolves", "file": rel, "detail": f"`{line}`: {pf} binds `{a.name}` to something else than the submodule {dotted(sub)}, and `from … import` takes the package attribute first", "importer": importer, "is_init": is_init, "line": line, "target": target, "attr_shadow": True})
                     continue
                 tf = by_module.get(target)
@@ -887,7 +892,7 @@ def run(ck: Check) -> None:
     campaign_resolve(ck, 3 if quick else 4)
     campaign_relative(ck, 3 if quick else 4, 300 if quick else 3000)
     campaign_module_path(ck, 400 if quick else 4000)
-    campaign_e2e(ck, 60 if quick else 800, 15 if quick else 150, 3 if quick else 4)
+    campaign_e2e(ck, 200 if quick else 3000, 30 if quick else 400, 3 if quick else 4)
     ck.search_hooks.append(search_from_disagreements)
     known_findings(ck)
 
